@@ -125,6 +125,29 @@ type c05Op struct {
 	err    error
 	raw    string // Graph.String() as returned
 	canon  string // Graph.String() after Graph.Canon(), plus Canon's error
+	// aborted-operation fault: kind, where in the operation (sixteenths of the
+	// number of client calls the reference resolution made), whether it fired,
+	// and the operation's invoke/return stamps
+	Fault      int
+	FaultFrac  int
+	FaultLabel int // aimed at calls of callKinds[FaultLabel]; 0: any call
+	fired      bool
+	start, end uint64
+}
+
+func (op *c05Op) faultText(at int) string {
+	if op.Fault == faultNone {
+		return ""
+	}
+	what := "client call"
+	if op.FaultLabel != 0 {
+		what = callKinds[op.FaultLabel] + " call"
+	}
+	s := fmt.Sprintf(" [fault: %s at %s %d", faultNames[op.Fault], what, at)
+	if op.Fault == faultErrEvery {
+		s += fmt.Sprintf(", then every %d", 2+op.FaultFrac%3)
+	}
+	return s + "]"
 }
 
 // canonText canonicalises g in place, as a caller comparing graphs would, and
@@ -150,6 +173,7 @@ type c05Scenario struct {
 	Insertion string            `json:"insertion_order"`
 	LRUSize   int               `json:"pypi_cache_capacity,omitempty"`
 	Prelude   string            `json:"foreign_prelude,omitempty"`
+	Epilogue  []string          `json:"epilogue_after_faults,omitempty"`
 	Sched     string            `json:"scheduler,omitempty"`
 	Programs  [][]string        `json:"task_programs"`
 	Switches  []string          `json:"schedule_switches,omitempty"`
@@ -362,6 +386,49 @@ func RunC05(t *kernel.Tape, o Opts) *Result {
 			prefixOps = append(prefixOps, &c05Op{Root: roots[t.Choose(len(roots))]})
 		}
 	}
+	// Aborted operations (a third of the runs): some operations have their
+	// context cancelled, or see their client calls fail, somewhere in the
+	// middle. What such an operation returns is not judged; every operation
+	// that runs afterwards on the same client and resolver is ("what other
+	// resolutions were run earlier" includes resolutions that did not finish).
+	faulty := t.Bool(1, 3)
+	var epilogue []*c05Op
+	var epilogueTask []int
+	if faulty {
+		drawFault := func(op *c05Op) {
+			if t.Bool(1, 2) {
+				op.Fault = 1 + t.Choose(numFaultKinds-1)
+				op.FaultFrac = t.Choose(16)
+				if t.Bool(1, 2) {
+					op.FaultLabel = 1 + t.Choose(len(callKinds)-1)
+				}
+			}
+		}
+		for _, op := range prefixOps {
+			drawFault(op)
+		}
+		for ti, ops := range programs {
+			for j, op := range ops {
+				if !concurrent && j == len(ops)-1 {
+					break // a history ends with a clean operation
+				}
+				drawFault(op)
+				if op.Fault != faultNone && j+1 < len(ops) && t.Bool(1, 2) {
+					ops[j+1].Root = op.Root // come back to the packages the aborted operation touched
+				}
+				if concurrent && op.Fault != faultNone && len(epilogue) < 2 && (len(epilogueTask) == 0 || epilogueTask[len(epilogueTask)-1] != ti) {
+					// once the faults have stopped: a clean resolution on the
+					// resolver that ran the aborted one
+					r := op.Root
+					if t.Bool(1, 2) {
+						r = roots[t.Choose(len(roots))]
+					}
+					epilogue = append(epilogue, &c05Op{Root: r})
+					epilogueTask = append(epilogueTask, ti)
+				}
+			}
+		}
+	}
 	var cfg kernel.Config
 	if concurrent {
 		cfg = drawSched(t, []string{"MatchingVersions", "Requirements", "Versions", "Version", "op"})
@@ -425,6 +492,10 @@ func RunC05(t *kernel.Tape, o Opts) *Result {
 	for _, op := range prefixOps {
 		allRoots[op.Root] = true
 	}
+	for _, op := range epilogue {
+		allRoots[op.Root] = true
+	}
+	refCalls := map[uni.Ref][len(callKinds)]int{}
 	refRaw := map[uni.Ref]string{}
 	refCanon := map[uni.Ref]string{}
 	computeRefs := func() (map[uni.Ref]string, map[uni.Ref]string, bool) {
@@ -439,6 +510,7 @@ func RunC05(t *kernel.Tape, o Opts) *Result {
 			if bc.over {
 				return nil, nil, false
 			}
+			refCalls[r] = bc.byKind
 			if pv != nil {
 				m[r] = fmt.Sprintf("PANIC:%v", pv)
 				d[r] = m[r]
@@ -546,6 +618,10 @@ func RunC05(t *kernel.Tape, o Opts) *Result {
 	}
 	ntasks := len(programs)
 	sc := &simClient{inner: live, calls: make([]int, kernel.MaxTasks), cancels: make([]context.CancelFunc, kernel.MaxTasks), maxCall: 5000}
+	if faulty {
+		sc.enableFaults()
+	}
+	faultAt := func(op *c05Op) int { return 1 + op.FaultFrac*refCalls[op.Root][op.FaultLabel]/16 }
 	var fLive *resolve.LocalClient
 	var fClient *simClient
 	var fGolden string
@@ -617,8 +693,39 @@ func RunC05(t *kernel.Tape, o Opts) *Result {
 			violate(res, "client-mutated", "client-mutated:"+sname+":"+what, step, "%s: the client reports differently than before: %s", when, fd)
 		}
 	}
+	var judged []*c05Op // every operation of the run, for the overlap rule
 	judge := func(op *c05Op, step int, who string) {
 		root := spec.VK(op.Root.P, op.Root.V)
+		if op.fired {
+			// an aborted operation: whatever it returned is its own business
+			switch {
+			case op.panicV != nil:
+				probe(res, "aborted_op_panicked", 1)
+			case op.err != nil:
+				probe(res, "aborted_op_returned_error", 1)
+			default:
+				probe(res, "aborted_op_returned_graph", 1)
+			}
+			fault(res, "op_"+faultNames[op.Fault], 1)
+			return
+		}
+		afterFault := false
+		for _, x := range judged {
+			if !x.fired || x == op {
+				continue
+			}
+			if x.end < op.start {
+				afterFault = true
+			} else if x.start < op.end && x.Fault >= faultErrOnce {
+				// the client was failing calls while this operation ran:
+				// the universe was not fixed for it
+				probe(res, "clean_op_overlapping_client_errors", 1)
+				return
+			}
+		}
+		if afterFault {
+			probe(res, "clean_ops_judged_after_an_aborted_op", 1)
+		}
 		if op.panicV != nil {
 			violate(res, "panic", "panic:"+sname, step, "%s Resolve(%s %s) panicked: %v", who, root.Name, root.Version, op.panicV)
 			return
@@ -644,8 +751,21 @@ func RunC05(t *kernel.Tape, o Opts) *Result {
 		}
 		probe(res, "node_errors", op.nerr)
 	}
-	runOp := func(r resolve.Resolver, ctx context.Context, op *c05Op) {
-		g, err, pv := resolveOnce(r, ctx, spec.VK(op.Root.P, op.Root.V))
+	phase := uint64(0)
+	runOp := func(r resolve.Resolver, slot int, op *c05Op) {
+		// every operation has a context of its own (a fault may cancel it)
+		octx, cancel := context.WithCancel(context.Background())
+		defer cancel()
+		sc.cancels[slot] = cancel
+		sc.calls[slot] = 0
+		sc.plan(slot, op.Fault, op.FaultLabel, faultAt(op), 2+op.FaultFrac%3)
+		op.start = phase<<32 | sc.s.Stamp()
+		g, err, pv := resolveOnce(r, octx, spec.VK(op.Root.P, op.Root.V))
+		if sc.fired != nil {
+			op.fired = sc.fired[slot]
+		}
+		sc.plan(slot, faultNone, 0, 0, 1)
+		op.end = phase<<32 | sc.s.Stamp()
 		op.panicV = pv
 		if pv == nil {
 			op.g, op.err = g, err
@@ -668,8 +788,7 @@ func RunC05(t *kernel.Tape, o Opts) *Result {
 		sc.s = ps
 		okRun := ps.Run([]func(*kernel.Task){func(*kernel.Task) {
 			for _, op := range prefixOps {
-				sc.calls[0] = 0
-				runOp(perTask[0], ctx, op)
+				runOp(perTask[0], 0, op)
 			}
 		}})
 		if !okRun {
@@ -680,6 +799,7 @@ func RunC05(t *kernel.Tape, o Opts) *Result {
 			res.Status = "budget"
 			return res
 		}
+		judged = append(judged, prefixOps...)
 		for i, op := range prefixOps {
 			judge(op, i, "history-prefix")
 		}
@@ -690,16 +810,17 @@ func RunC05(t *kernel.Tape, o Opts) *Result {
 	// Main phase.
 	s := kernel.NewSched(t, cfg)
 	sc.s = s
+	phase = 1
+	for _, ops := range programs {
+		judged = append(judged, ops...)
+	}
 	fns := make([]func(*kernel.Task), ntasks)
 	for i := range programs {
 		i := i
-		tctx, cancel := context.WithCancel(context.Background())
-		sc.cancels[i] = cancel
 		fns[i] = func(*kernel.Task) {
 			for j, op := range programs[i] {
-				sc.calls[i] = 0
 				s.Yield(kernel.KindOp, "op-start", false)
-				runOp(perTask[i], tctx, op)
+				runOp(perTask[i], i, op)
 				s.Yield(kernel.KindOp, "op-end", false)
 				if !concurrent && !s.IsAborted() {
 					judge(op, j, "history")
@@ -754,6 +875,29 @@ func RunC05(t *kernel.Tape, o Opts) *Result {
 		res.Violations = nil
 		return res
 	}
+	// Once the faults have stopped: clean resolutions, one after the other, on
+	// the resolvers that ran aborted operations.
+	if len(epilogue) > 0 {
+		es := kernel.NewSched(t, kernel.Config{Mode: kernel.ModeSerial})
+		sc.s = es
+		phase = 2
+		okE := es.Run([]func(*kernel.Task){func(*kernel.Task) {
+			for k, op := range epilogue {
+				runOp(perTask[epilogueTask[k]], 0, op)
+			}
+		}})
+		if !okE {
+			res.Status = "stalled"
+			return res
+		}
+		if es.Aborted {
+			res.Status = "budget"
+			res.Violations = nil
+			return res
+		}
+		res.Yields += es.Yields
+		sc.s = s
+	}
 	fault(res, "reordered_completions", s.Reorders)
 	fault(res, "client_call_preemptions", s.MidOpSwitch)
 	fault(res, "lock_point_preemptions", s.LockPreempt)
@@ -771,6 +915,10 @@ func RunC05(t *kernel.Tape, o Opts) *Result {
 			for j, op := range ops {
 				judge(op, j, fmt.Sprintf("task %d", i))
 			}
+		}
+		judged = append(judged, epilogue...)
+		for k, op := range epilogue {
+			judge(op, k, fmt.Sprintf("after the faults stopped, on the resolver of task %d,", epilogueTask[k]))
 		}
 		checkClient(s.Yields, "at quiescence after the concurrent phase")
 		fname := sysNames[fSys]
@@ -794,7 +942,7 @@ func RunC05(t *kernel.Tape, o Opts) *Result {
 	// all later resolutions as it did when it was returned (a result that
 	// shares memory with resolver state would change under its holder).
 	{
-		all := append([][]*c05Op{prefixOps}, programs...)
+		all := append(append([][]*c05Op{prefixOps}, programs...), epilogue)
 		for ti, ops := range all {
 			for j, op := range ops {
 				if op.panicV != nil || (op.g == nil && op.err == nil) {
@@ -851,6 +999,9 @@ func RunC05(t *kernel.Tape, o Opts) *Result {
 				obs = append(obs, op.sig)
 			}
 		}
+		for _, op := range epilogue {
+			obs = append(obs, op.sig)
+		}
 		for _, r := range spec.Refs() {
 			if sg, ok := refs[r]; ok {
 				obs = append(obs, sg)
@@ -883,7 +1034,7 @@ func RunC05(t *kernel.Tape, o Opts) *Result {
 			var p []string
 			for _, op := range prefixOps {
 				vk := spec.VK(op.Root.P, op.Root.V)
-				p = append(p, "prefix: Resolve "+vk.Name+" "+vk.Version)
+				p = append(p, "prefix: Resolve "+vk.Name+" "+vk.Version+op.faultText(faultAt(op)))
 			}
 			scn.Programs = append(scn.Programs, p)
 		}
@@ -891,10 +1042,14 @@ func RunC05(t *kernel.Tape, o Opts) *Result {
 			var p []string
 			for _, op := range ops {
 				vk := spec.VK(op.Root.P, op.Root.V)
-				p = append(p, "Resolve "+vk.Name+" "+vk.Version)
+				p = append(p, "Resolve "+vk.Name+" "+vk.Version+op.faultText(faultAt(op)))
 				scn.Results[vk.Name+" "+vk.Version] = op.sig
 			}
 			scn.Programs = append(scn.Programs, p)
+		}
+		for k, op := range epilogue {
+			vk := spec.VK(op.Root.P, op.Root.V)
+			scn.Epilogue = append(scn.Epilogue, fmt.Sprintf("resolver of task %d: Resolve %s %s", epilogueTask[k], vk.Name, vk.Version))
 		}
 		for _, sw := range s.Switches() {
 			scn.Switches = append(scn.Switches, fmt.Sprintf("#%d task%d->task%d@%s", sw.Step, sw.From, sw.To, sw.Label))
@@ -955,14 +1110,17 @@ func indexOfSys(s resolve.System) int {
 // boundedClient fails every call after max calls (used for the serial
 // reference resolutions, which run outside the scheduler).
 type boundedClient struct {
-	inner resolve.Client
-	n     int
-	max   int
-	over  bool
+	inner  resolve.Client
+	n      int
+	max    int
+	over   bool
+	byKind [len(callKinds)]int // calls made, by kind; [0] counts them all
 }
 
-func (b *boundedClient) tick() error {
+func (b *boundedClient) tick(kind string) error {
 	b.n++
+	b.byKind[0]++
+	b.byKind[callKindIndex(kind)]++
 	if b.n > b.max {
 		b.over = true
 		return errBudget
@@ -971,25 +1129,25 @@ func (b *boundedClient) tick() error {
 }
 
 func (b *boundedClient) Version(ctx context.Context, vk resolve.VersionKey) (resolve.Version, error) {
-	if err := b.tick(); err != nil {
+	if err := b.tick("Version"); err != nil {
 		return resolve.Version{}, err
 	}
 	return b.inner.Version(ctx, vk)
 }
 func (b *boundedClient) Versions(ctx context.Context, pk resolve.PackageKey) ([]resolve.Version, error) {
-	if err := b.tick(); err != nil {
+	if err := b.tick("Versions"); err != nil {
 		return nil, err
 	}
 	return b.inner.Versions(ctx, pk)
 }
 func (b *boundedClient) Requirements(ctx context.Context, vk resolve.VersionKey) ([]resolve.RequirementVersion, error) {
-	if err := b.tick(); err != nil {
+	if err := b.tick("Requirements"); err != nil {
 		return nil, err
 	}
 	return b.inner.Requirements(ctx, vk)
 }
 func (b *boundedClient) MatchingVersions(ctx context.Context, vk resolve.VersionKey) ([]resolve.Version, error) {
-	if err := b.tick(); err != nil {
+	if err := b.tick("MatchingVersions"); err != nil {
 		return nil, err
 	}
 	return b.inner.MatchingVersions(ctx, vk)
